@@ -2,6 +2,7 @@
 C16 — justfile discovery picks the nearest justfile; fallback climbs as documented.
 -/
 import Just.Model.Search
+import Just.Lemmas.SearchSame
 namespace Just.Props.C16
 open Just.Search
 
@@ -165,5 +166,40 @@ theorem candidate_names_are_documented :
     isCandidate "jUSTfile" = true ∧ isCandidate ".JustFile" = true ∧
     isCandidate "justfile.just" = false ∧ isCandidate "Justfile " = false := by
   decide
+
+/-! ### nothing but candidate names matters -/
+section Markers
+open Just.Search
+
+/-- **only candidate names matter to discovery and fallback**: directories that differ in other entries (`.git`, `Cargo.toml`,
+sub-directories, anything that is not named like a justfile) give the same outcome -/
+theorem run_same (ds es : List Level) (h : sameCand ds es) : run ds = run es := by
+  unfold run
+  rw [search_same ds es 0 h, sameCand_length ds es h]
+  split
+  · rfl
+  · rfl
+  · rename_i l n _
+    exact climb_same true _ _ _ l n (sameCand_drop l ds es h)
+
+
+def withExtras (extra : List String) (ds : List Level) : List Level :=
+  ds.map (fun d => { d with entries := d.entries ++ extra })
+
+theorem sameCand_withExtras (extra : List String) (h : ∀ e ∈ extra, isCandidate e = false) :
+    ∀ ds : List Level, sameCand (withExtras extra ds) ds
+  | [] => by simp [withExtras, sameCand]
+  | d :: ds => by
+    have hf : extra.filter isCandidate = [] := List.filter_eq_nil_iff.mpr (by intro e he; simp [h e he])
+    refine ⟨⟨?_, rfl, rfl⟩, sameCand_withExtras extra h ds⟩
+    simp [List.filter_append, hf]
+
+/-- version-control and project markers in every directory of the chain change nothing -/
+theorem markers_change_nothing (ds : List Level) :
+    run (withExtras [".git", ".hg", ".svn", "_darcs", ".bzr", "Cargo.toml", "package.json"] ds) = run ds :=
+  run_same _ _ (sameCand_withExtras _ (by decide) ds)
+
+
+end Markers
 
 end Just.Props.C16
